@@ -176,14 +176,14 @@ func c15Exchanges(thorough bool) map[string]c15Exchange {
 		return o
 	}
 	m := map[string]c15Exchange{
-		"req:headers+data":       {Dir: c15DirReq, Preface: "whole", Bytes: cat(reqHeaders, dataEmptyES)},   // 21 bytes
-		"resp:settings+headers":  {Dir: c15DirResp, Bytes: cat(settings, respHeadersES)},                    // 19 bytes
+		"req:headers+data":       {Dir: c15DirReq, Preface: "whole", Bytes: cat(reqHeaders, dataEmptyES)},     // 21 bytes
+		"resp:settings+headers":  {Dir: c15DirResp, Bytes: cat(settings, respHeadersES)},                      // 19 bytes
 		"req:settings+headersES": {Dir: c15DirReq, Preface: "whole", Bytes: cat(settings, reqHeadersES)[:21]}, // 21 bytes = whole
 	}
 	if thorough {
 		m["req:headers+data3"] = c15Exchange{Dir: c15DirReq, Preface: "whole", Bytes: cat(reqHeaders, c15Frame(0, 0x1, 1, 7, 8, 9))} // 24 bytes
-		m["resp:headers+msg"] = c15Exchange{Dir: c15DirResp, Bytes: cat(respHeaders, dataMsgES)}                // 24 bytes
-		m["req:preface"] = c15Exchange{Dir: c15DirReq, Preface: "composed", Bytes: reqHeadersES}               // 24 bytes composed
+		m["resp:headers+msg"] = c15Exchange{Dir: c15DirResp, Bytes: cat(respHeaders, dataMsgES)}                                     // 24 bytes
+		m["req:preface"] = c15Exchange{Dir: c15DirReq, Preface: "composed", Bytes: reqHeadersES}                                     // 24 bytes composed
 	}
 	return m
 }
